@@ -2,6 +2,8 @@ import NbdimeModel
 import NbdimeProofs.Lemmas.MergeLaws
 import NbdimeProofs.Lemmas.ApplyOneSided
 import NbdimeProofs.Lemmas.ApplyKeywise
+import NbdimeProofs.Lemmas.KeywiseMore
+import NbdimeProofs.Lemmas.ApplyChoose
 import NbdimeProofs.Lemmas.JsonEq
 import NbdimeProofs.Lemmas.NbWf
 import NbdimeProofs.Properties.C01
@@ -336,6 +338,64 @@ theorem C06_model_keywise (E : Env) (base : J) (ld rd : List Op) (X Y : J)
       rw [this] at h
       cases h; rfl
   | _ => simp [keywise] at hk
+
+open Merge in
+/-- **C09, choosing a side, for key-wise merges**: with every decision switched to local, `apply_decisions` gives base
+    patched with the local diff — the local document; with every decision switched to remote, the remote document. -/
+theorem C09_model_keywise_choose_local (E : Env) (base : List (String × J)) (ld rd : List Op) (ds : List MD) (L : J)
+    (hc : (J.obj base).canonical = true) (hwfL : wf (.obj base) ld = true) (hwfR : wf (.obj base) rd = true)
+    (hagree : ∀ el ∈ ld, ∀ er ∈ rd, el.skey = er.skey → el = er)
+    (hL : patch (.obj base) ld = .ok L) (h : decideMerge E (.obj base) ld rd = .ok ds) :
+    applyAs "local" (.obj base) (ds.map MD.toDecision) = .ok L :=
+  keywise_choose true E base ld rd ds L hc hwfL hwfR hagree hL h
+
+open Merge in
+theorem C09_model_keywise_choose_remote (E : Env) (base : List (String × J)) (ld rd : List Op) (ds : List MD) (R : J)
+    (hc : (J.obj base).canonical = true) (hwfL : wf (.obj base) ld = true) (hwfR : wf (.obj base) rd = true)
+    (hagree : ∀ el ∈ ld, ∀ er ∈ rd, el.skey = er.skey → el = er)
+    (hR : patch (.obj base) rd = .ok R) (h : decideMerge E (.obj base) ld rd = .ok ds) :
+    applyAs "remote" (.obj base) (ds.map MD.toDecision) = .ok R :=
+  keywise_choose false E base ld rd ds R hc hwfL hwfR hagree hR h
+
+open Merge in
+/-- **C11 for the decisions of key-wise merges**: every local / remote diff embedded in a decision is well-formed for the
+    sub-document at the decision's path (character level when the path ends on a line of a string) -/
+theorem C11_model_keywise_decisions_wf (E : Env) (base : List (String × J)) (ld rd : List Op) (ds : List MD)
+    (hwfL : wf (.obj base) ld = true) (hwfR : wf (.obj base) rd = true)
+    (hagree : ∀ el ∈ ld, ∀ er ∈ rd, el.skey = er.skey → el = er)
+    (h : decideMerge E (.obj base) ld rd = .ok ds) :
+    ∀ d ∈ ds, ∀ x, (d.localDiff = some x ∨ d.remoteDiff = some x) → wfAt (.obj base) d.path x = true :=
+  keywise_decisions_wf E base ld rd ds hwfL hwfR hagree h
+
+open Merge in
+/-- **C03 on the key-wise domain**: the decision procedure does not raise, whatever the strategy table and the oracle -/
+theorem C03_model_keywise_total (E : Env) (base : List (String × J)) (ld rd : List Op)
+    (hwfL : wf (.obj base) ld = true) (hwfR : wf (.obj base) rd = true)
+    (hagree : ∀ el ∈ ld, ∀ er ∈ rd, el.skey = er.skey → el = er) :
+    ∃ ds, decideMerge E (.obj base) ld rd = .ok ds := by
+  rw [wf] at hwfL hwfR
+  obtain ⟨l1, l2, _⟩ := wfObj_shape base ld [] hwfL
+  obtain ⟨r1, r2, _⟩ := wfObj_shape base rd [] hwfR
+  exact keywise_total E base ld rd l1 l2 r1 r2 hagree
+
+open Merge in
+/-- the whole of C03 / C06 / C09 on the key-wise domain in one statement: if both diffs are well-formed, agree on shared
+    keys, and each patches base (into L and R), and their union patches base into X, then the merge succeeds, reports no
+    conflict, applies to X, and choosing local / remote for every decision gives L / R. -/
+theorem C09_model_keywise_all (E : Env) (base : List (String × J)) (ld rd : List Op) (L R X : J)
+    (hc : (J.obj base).canonical = true) (hwfL : wf (.obj base) ld = true) (hwfR : wf (.obj base) rd = true)
+    (hagree : ∀ el ∈ ld, ∀ er ∈ rd, el.skey = er.skey → el = er)
+    (hL : patch (.obj base) ld = .ok L) (hR : patch (.obj base) rd = .ok R)
+    (hX : patch (.obj base) (ld ++ rd.filter (fun e => !(ld.map Op.skey).contains e.skey)) = .ok X) :
+    ∃ ds, decideMerge E (.obj base) ld rd = .ok ds ∧ (∀ d ∈ ds, d.conflict = false) ∧
+      applyDecisions (.obj base) (ds.map MD.toDecision) = .ok X ∧
+      applyAs "local" (.obj base) (ds.map MD.toDecision) = .ok L ∧
+      applyAs "remote" (.obj base) (ds.map MD.toDecision) = .ok R := by
+  obtain ⟨ds, h⟩ := C03_model_keywise_total E base ld rd hwfL hwfR hagree
+  obtain ⟨a1, a2⟩ := C09_model_keywise_apply E base ld rd ds X hc hwfL hwfR hagree hX h
+  exact ⟨ds, h, a2, a1, C09_model_keywise_choose_local E base ld rd ds L hc hwfL hwfR hagree hL h,
+    C09_model_keywise_choose_remote E base ld rd ds R hc hwfL hwfR hagree hR h⟩
+
 
 namespace C05ex
 open Merge
